@@ -1,1 +1,135 @@
-//! Exact arithmetic oracles (big integers), independent of the contracts' Uint/Decimal code.
+//! Exact arithmetic oracles (big integers / rationals), independent of the contracts' Uint/Decimal code.
+
+use num_bigint::{BigInt, BigUint};
+use num_integer::Integer;
+use num_traits::{One, Signed, ToPrimitive, Zero};
+
+/// exact non-negative rational
+#[derive(Clone, Debug)]
+pub struct Q {
+    pub n: BigInt,
+    pub d: BigInt,
+}
+
+impl Q {
+    pub fn new(n: BigInt, d: BigInt) -> Q {
+        assert!(!d.is_zero());
+        let (mut n, mut d) = (n, d);
+        if d.is_negative() {
+            n = -n;
+            d = -d;
+        }
+        let g = n.gcd(&d);
+        if !g.is_zero() && !g.is_one() {
+            n /= &g;
+            d /= &g;
+        }
+        Q { n, d }
+    }
+    pub fn int(x: u128) -> Q {
+        Q { n: BigInt::from(x), d: BigInt::one() }
+    }
+    pub fn ratio(a: u128, b: u128) -> Q {
+        Q::new(BigInt::from(a), BigInt::from(b))
+    }
+    pub fn zero() -> Q {
+        Q::int(0)
+    }
+    pub fn add(&self, o: &Q) -> Q {
+        Q::new(&self.n * &o.d + &o.n * &self.d, &self.d * &o.d)
+    }
+    pub fn sub(&self, o: &Q) -> Q {
+        Q::new(&self.n * &o.d - &o.n * &self.d, &self.d * &o.d)
+    }
+    pub fn mul(&self, o: &Q) -> Q {
+        Q::new(&self.n * &o.n, &self.d * &o.d)
+    }
+    pub fn div(&self, o: &Q) -> Q {
+        Q::new(&self.n * &o.d, &self.d * &o.n)
+    }
+    pub fn floor(&self) -> BigInt {
+        self.n.div_floor(&self.d)
+    }
+    pub fn floor_u128(&self) -> u128 {
+        self.floor().to_u128().unwrap_or(u128::MAX)
+    }
+    pub fn cmp(&self, o: &Q) -> std::cmp::Ordering {
+        (&self.n * &o.d).cmp(&(&o.n * &self.d))
+    }
+    pub fn le(&self, o: &Q) -> bool {
+        self.cmp(o) != std::cmp::Ordering::Greater
+    }
+    pub fn lt(&self, o: &Q) -> bool {
+        self.cmp(o) == std::cmp::Ordering::Less
+    }
+    pub fn min(&self, o: &Q) -> Q {
+        if self.le(o) {
+            self.clone()
+        } else {
+            o.clone()
+        }
+    }
+    pub fn max(&self, o: &Q) -> Q {
+        if self.le(o) {
+            o.clone()
+        } else {
+            self.clone()
+        }
+    }
+    pub fn to_f64(&self) -> f64 {
+        self.n.to_f64().unwrap_or(f64::NAN) / self.d.to_f64().unwrap_or(f64::NAN)
+    }
+    /// 18-digit decimal string -> rational
+    pub fn from_decimal(dec: cosmwasm_std::Decimal) -> Q {
+        Q::new(BigInt::from(dec.atomics().u128()), BigInt::from(10u128.pow(18)))
+    }
+}
+
+pub const SECONDS_IN_DAY: u64 = 86_400;
+pub const HALF_YEAR: u64 = 15_778_463;
+pub const YEAR: u64 = 31_556_926;
+
+/// The documented weight multiplier: the quadratic through (1 day, 1x), (half year, 5x),
+/// (one year, 16x), as an exact rational (Lagrange form).
+pub fn weight_multiplier(d: u64) -> Q {
+    let xs = [SECONDS_IN_DAY as i128, HALF_YEAR as i128, YEAR as i128];
+    let ys = [1i128, 5, 16];
+    let mut acc = Q::zero();
+    for i in 0..3 {
+        let mut num = BigInt::from(ys[i]);
+        let mut den = BigInt::one();
+        for j in 0..3 {
+            if i != j {
+                num *= BigInt::from(d as i128 - xs[j]);
+                den *= BigInt::from(xs[i] - xs[j]);
+            }
+        }
+        acc = acc.add(&Q::new(num, den));
+    }
+    acc
+}
+
+/// weight the statement prescribes for (amount, duration): max(amount, amount x m(d)), as a rational
+pub fn exact_weight(amount: u128, d: u64) -> Q {
+    let w = Q::int(amount).mul(&weight_multiplier(d));
+    w.max(&Q::int(amount))
+}
+
+pub fn isqrt(n: &BigUint) -> BigUint {
+    n.sqrt()
+}
+
+pub fn big(x: u128) -> BigUint {
+    BigUint::from(x)
+}
+
+#[cfg(test)]
+mod tests {
+    use super::*;
+    #[test]
+    fn anchors() {
+        assert_eq!(weight_multiplier(SECONDS_IN_DAY).floor_u128(), 1);
+        assert!(weight_multiplier(HALF_YEAR).cmp(&Q::int(5)) == std::cmp::Ordering::Equal);
+        assert!(weight_multiplier(YEAR).cmp(&Q::int(16)) == std::cmp::Ordering::Equal);
+    }
+}
